@@ -170,7 +170,9 @@ def run_property(pid, tier='quick', jobs=None, verbose=True):
     cross = tier == 'thorough'
     work = [(k, [pid], cross) for k in keys]
     if jobs > 1:
-        with mp.get_context('fork').Pool(jobs) as pool:
+        # one fresh process per function: module-level state of the generator (list / dict axiom tables, name counters)
+        # must not depend on which functions a worker happened to verify before -- verdicts have to be reproducible
+        with mp.get_context('fork').Pool(jobs, maxtasksperchild=1) as pool:
             results = pool.map(_worker, work, chunksize=1)
     else:
         results = [_worker(w) for w in work]
